@@ -301,6 +301,10 @@ def to_pl_call_arg(t):
     if isinstance(t, str):
         if re.fullmatch(r"-?[0-9]+", t):
             return Constant(int(t))
+        if re.fullmatch(r"-?[0-9]+\.[0-9]+", t):
+            return Constant(float(t))
+        if t.startswith('"'):
+            return Constant(t)      # string constants keep their quotes in problog
         return Term(t)
     return Term(t[1], *[to_pl_call_arg(a) for a in t[2]])
 
